@@ -13,6 +13,7 @@ import Mathlib.Analysis.SpecialFunctions.Exp
 import BC.Real
 import BC.Model.Atmo
 import BC.Lemmas.Atmo
+import BC.Lemmas.AtmoVapour
 
 namespace BC.Props.C08
 open BC BC.Model BC.Gen BC.Lemmas.Atmo
@@ -245,6 +246,23 @@ theorem C08_density_falls_with_vapour_partial (c x x' : ℝ) (hc : 0 < c) (hx : 
   apply mul_le_mul_of_nonneg_left _ hc.le
   norm_num
   linarith
+
+/-- **C08_density_falls_with_humidity** (full; supersedes the partial statement above): with the compressibility factor `Z` and
+    the enhancement factor LIVE, over −73.15 … 60 °C and 0 < p ≤ 1100 hPa the coded CIPM-2007 density `calculate_air_density(t, p, h)`
+    does not increase when the humidity fraction rises from `h` to `h'` (as long as the vapour mole fraction stays ≤ 1, which it does
+    by orders of magnitude: it is the saturation pressure over the total pressure times `h`). Hence the density RATIO of a station
+    falls with humidity, fraction or percent meaning the same (`C08_humidity`). -/
+theorem C08_density_falls_with_humidity (t p h h' : ℝ) (ht0 : -73.15 ≤ t) (ht1 : t ≤ 60) (hp0 : 0 < p) (hp1 : p ≤ 1100)
+    (hh0 : 0 ≤ h) (hhh : h ≤ h') (hx1 : BC.Lemmas.AtmoVapour.xvOf t p h' ≤ 1) :
+    airDensity t p h' ≤ airDensity t p h := by
+  rw [BC.Lemmas.AtmoVapour.airDensity_eq_rhoX, BC.Lemmas.AtmoVapour.airDensity_eq_rhoX]
+  have := BC.Lemmas.AtmoVapour.rhoX_antitone t p _ _ ht0 ht1 hp0 hp1
+    (BC.Lemmas.AtmoVapour.xvOf_nonneg t p h hp0 hh0) (BC.Lemmas.AtmoVapour.xvOf_mono t p h h' hp0 hhh) hx1
+  linarith
+
+/-- non-vacuity of the hypotheses of `C08_density_falls_with_humidity`: dry air has mole fraction 0 -/
+example : BC.Lemmas.AtmoVapour.xvOf 15 1013.25 0 ≤ 1 := by
+  unfold BC.Lemmas.AtmoVapour.xvOf; norm_num
 
 /-! non-vacuity: a standard station exists, and the hypotheses of `C08_isa_pressure` / `C08_extrapolation_law`
     are satisfiable (sea-level station, prediction at 1000 ft) -/
